@@ -1,5 +1,5 @@
 """C14 - user callbacks see exactly the parsed items, and their verdict binds (DESIGN.md 7/C14)."""
-import time, zlib
+import json, time, zlib
 from vlib import core, schema, model_lang
 from vlib import gen as G
 from vlib.core import hx, unhx, Verdict, F_LIST, F_MULTI, F_TITLE
@@ -63,6 +63,7 @@ def apply_regs(decls, regs):
 
 def gen(tier, seed):
     yield from late_specs()
+    yield from nest_specs()
     rng = core.seeded_rng(seed, 'c14')
     n = 12000 if tier == 'quick' else 200000
     made = 0
@@ -104,6 +105,48 @@ def late_specs():
         yield {'late': first, 'k': 0, 'unreg': True}
         for k in range(1, 12):
             yield {'late': first, 'k': k}
+
+
+# ---- a function callback that re-enters the library (parses a text with a function call of its own into another context)
+
+NEST_DECLS = [D('fn', 'func', cbs='F'), D('i', 'int', default=0), D('sl', 'str', F_LIST, default=None), D('sec', 'sec', F_MULTI | F_TITLE, sub=[D('fn', 'func', cbs='F'), D('x', 'int', default=0)])]
+NEST_TEXTS = ['fn(a)\ni = 1\n', 'i = 1\nfn(one, "two words", three)\nsl = {x, y}\nfn()\ni = 2\n', 'sec t { fn(p, q) x = 3 }\nfn(r)\nsec u { x = 4 fn(%s) }\ni = 5\n' % ', '.join('a%d' % k for k in range(20))]
+
+
+def nest_specs():
+    for k in range(len(NEST_TEXTS)):
+        yield {'nest': k}
+
+
+def nest_script(spec):
+    lines, sid = schema.emit_schema(NEST_DECLS)
+    return '\n'.join(list(lines) + ['init 0 %d 0' % sid, 'nestmode 1', 'parse_buf 0 %s' % hx(NEST_TEXTS[spec['nest']]), 'nestmode 0', 'dump 0', 'init 1 %d 0' % sid,
+                                  'parse_buf 1 %s' % hx(NEST_TEXTS[spec['nest']]), 'dump 1'])
+
+
+def nest_judge(spec, events, death):
+    v = Verdict()
+    v.nontrivial = True
+    v.notes['reentrant_callback_cases'] = 1
+    if death is not None:
+        v.bad('crash:%s@%s:re-entrant-callback' % (death['kind'], death['where']), death['text'][-500:])
+        return v
+    r = [e for e in events if e.get('ev') == 'r' and e.get('op') == 'parse_buf']
+    d = [e for e in events if e.get('ev') == 'dump']
+    if len(r) < 2 or len(d) < 2:
+        v.bad('harness:short-log', 'events missing')
+        return v
+    cut = events.index(r[0])
+    a1 = [[unhx(x) for x in e['args']] for e in events[:cut] if e.get('ev') == 'cb' and e.get('k') == 'func']
+    a2 = [[unhx(x) for x in e['args']] for e in events[cut:] if e.get('ev') == 'cb' and e.get('k') == 'func']
+    nested = [e for e in events[:cut] if e.get('ev') == 'nested']
+    if any(e['rc'] != 0 or e['n'] != 2 for e in nested) or len(nested) != len(a2):
+        v.bad('re-entrant-callback:inner-parse', 'the text parsed from inside a function callback: %r (one per outer call, each must be accepted completely)' % nested[:3])
+    elif r[0]['rc'] != r[1]['rc'] or a1 != a2:
+        v.bad('re-entrant-callback:arguments', 'function callbacks that parse another text before reading their arguments saw %r (rc=%s); without the inner parse they see %r (rc=%s)' % (a1[:4], r[0]['rc'], a2[:4], r[1]['rc']))
+    elif json.dumps(schema.dump_values_only(d[0]['tree']), sort_keys=True) != json.dumps(schema.dump_values_only(d[1]['tree']), sort_keys=True):
+        v.bad('re-entrant-callback:values', 'the outer parse ends with other values when its function callbacks re-enter the library')
+    return v
 
 
 def late_script(spec):
@@ -155,6 +198,8 @@ def late_judge(spec, events, death):
 
 
 def script(spec):
+    if 'nest' in spec:
+        return nest_script(spec)
     if 'late' in spec:
         return late_script(spec)
     decls = [D.from_json(j) for j in spec['decls']]
@@ -290,6 +335,8 @@ def align(mtrace, ltrace):
 
 
 def judge(spec, events, death):
+    if 'nest' in spec:
+        return nest_judge(spec, events, death)
     if 'late' in spec:
         return late_judge(spec, events, death)
     v = Verdict()
